@@ -8,7 +8,7 @@ already decided by constants are not free) and records, for every *free* branch,
 
 Integer operands are never evaluated: comparisons live in the three-point order domain.
 """
-from .absint import Interp, Bound, STD_VARIANTS
+from .absint import Interp, Bound, STD_VARIANTS, freeze, _base_live as _live
 from .symex import Sym, render, strip
 from .facts import is_local
 
@@ -35,6 +35,7 @@ class PathEnum:
         self.it = interp or Interp(facts, fn)
         self.sym = Sym(fn)
         self.max_paths = max_paths
+        self.revisit = False
 
     def place_adt(self, pl):
         """ADT path of the value stored in a place (through refs), or None"""
@@ -222,14 +223,21 @@ class PathEnum:
             live = self.can_return()
             nsucc = len({sb for sb, _, _ in succ if sb in live})
             for sb, s2, lab in succ:
-                if sb in onpath:
+                # acyclic in the exploded graph: a block may be revisited with a different abstract state
+                # (a `while` loop whose flag was just set), never with the same one
+                live_in = fn.live_in()[sb]
+                if self.revisit:
+                    key = (sb, freeze({k: v for k, v in s2.items() if _live(k, live_in)}))
+                else:
+                    key = sb
+                if key in onpath:
                     continue
                 a = self.atom_for(b, sb, nsucc)
                 extra = [a] if a else []
                 if lab is not None:
                     extra.append(('is', '<input>', lab))
-                dfs(sb, s2, atoms + extra, onpath | {sb})
-        dfs(start, dict(init or {}), [], {start})
+                dfs(sb, s2, atoms + extra, onpath | {key})
+        dfs(start, dict(init or {}), [], {(start, freeze(dict(init or {}))) if self.revisit else start})
         return out
 
 
